@@ -132,6 +132,9 @@ func (p *parser) parseFuncSignatures(funcs []int) {
 	for _, i := range funcs {
 		p.advanceTo(i)
 		fd := p.parseFuncDefSignature()
+		if fd == nil {
+			continue // previous error: no function name
+		}
 		if p.builtins.Globals[fd.Name] != nil {
 			// We still go on to add `fd` to the funcs map so that the
 			// function can be parsed correctly even though it has an invalid name.
